@@ -4,6 +4,7 @@
 \* Span and Metric events over 7 user property lists (some repeating evt_kind / span_name / metric_* keys);
 \* alone, under dedup / erasure, joined (both sides) with leaves repeating their keys, one more level (9 unary nodes, and_props).
 \* Every collection is replayed under the 6 key storage forms of Props.tla (KeyForms) with lookup keys separate / from the same buffer / prefix slices of enumerated keys.
+\* Map carriers (BTreeMap / HashMap, key type &str / String / Str by key storage form) over keys of mixed lengths whose byte order and length-first order differ.
 SPECIFICATION Spec
 CONSTANTS
     KeyOrder <- MC_KeyOrder
